@@ -726,6 +726,7 @@ func (r *tsspFileReader) ChunkMeta(id uint64, offset int64, size, itemCount uint
 	defer r.UnrefMetaCachePage(cp)
 	if err != nil {
 		log.Error("read chunk mata data fail", zap.Error(err))
+		return nil, err
 	}
 
 	block := SearchChunkMetaBlock(rb, itemCount, id)
